@@ -201,10 +201,12 @@ func jsonSetName(sum solutionset.Summary) string {
 		name = parsed.SolutionSet
 	})
 	if p != "" {
-		if strings.Contains(p, "index out of range") {
+		// no set name can be derived from this id: the pinned code runs off the end of a slice there, an implementation that
+		// returns an error instead says the same thing more politely; both read `panic` (the model's word for it)
+		if strings.Contains(p, "index out of range") || strings.HasPrefix(p, "marshal error: ") {
 			return "panic"
 		}
-		return "panic:" + clip(p, 60)
+		return "panic:" + pct(clip(p, 60))
 	}
 	return pct(name)
 }
